@@ -8,6 +8,7 @@ import resource
 import shutil
 import subprocess
 import tempfile
+import time
 
 import core
 
@@ -590,7 +591,18 @@ def _child_limits():
 
 
 def run_binary(wtf, argv, env, cwd, stdin=None, timeout=20):
-    """runs the built binary; returns (exit status, stdout, stderr, timed out).  Scratch files live next to the binary (ctx.rundir)."""
+    """runs the built binary; returns (exit status, stdout, stderr, timed out).  Scratch files live next to the binary (ctx.rundir).
+    A process that could not create a thread (EAGAIN from clone: the machine's budget, seen once under heavy load) is run again."""
+    for attempt in range(4):
+        r = _run_binary_once(wtf, argv, env, cwd, stdin, timeout)
+        if r[0] not in (0, 1) and not r[1] and any(x in r[2] for x in (b"pthread_create failed", b"failed to create new OS thread")):
+            time.sleep(0.5 + attempt)
+            continue
+        break
+    return r
+
+
+def _run_binary_once(wtf, argv, env, cwd, stdin=None, timeout=20):
     tmp = os.path.dirname(wtf)
     with tempfile.TemporaryFile(dir=tmp) as fo, tempfile.TemporaryFile(dir=tmp) as fe:
         p = subprocess.Popen([wtf] + argv, env=env, cwd=cwd, stdin=(subprocess.PIPE if stdin is not None else subprocess.DEVNULL),
